@@ -13,7 +13,7 @@ usage: tools/mutation_campaign.py [--per-file N] [--seed S] [--files a.go,b.go] 
 import argparse, json, os, random, re, subprocess, sys, time
 
 ROOT = os.path.dirname(os.path.dirname(os.path.abspath(__file__)))
-REPO = "/repo"
+REPO = os.environ.get("VERIF_REPO", "/repo")
 ENV = dict(os.environ, GOFLAGS="-mod=mod", GOPROXY="off", GOSUMDB="off", GOTOOLCHAIN="local",
            VERIF_EVIDENCE_DIR=os.path.join(ROOT, ".work", "evidence_mut"))
 
